@@ -191,7 +191,12 @@ def gen_plan(rng):
     plan = []
     for _ in range(n):
         a = rng.choice(['stop', 'abort', 'stop', 'abort', 'assembly_step', 'line_step', 'leave_scope', 'start'])
-        plan.append({'a': a, 'at': rng.choice([0, 0, 1, 7, 50, 151, 500, 3000])})
+        at = rng.choice([0, 0, 1, 7, 50, 151, 500, 3000])
+        if a not in ('stop', 'abort'):
+            # an action that can take the guard is only issued once the executor has run an instruction (and so holds it):
+            # were the controller to win the race at the very start, it would itself run the never-ending script
+            at = max(at, 1)
+        plan.append({'a': a, 'at': at})
     return plan
 
 
@@ -206,7 +211,7 @@ def run_concurrent(chk, tier):
         plan = gen_park_plan(rng) if park else gen_plan(rng)
         cases.append({'steps': [{'op': 'vm', 'vm': 0, 'ops': 'basic'},
                                 {'op': 'concurrent', 'vm': 0, 'scripts': scripts, 'plan': plan, 'yield': True, 'park': park, 'fp_seed': core.seed() * 1000003 + i, 'stuck_s': 20},
-                                {'op': 'load', 'vm': 0, 'src': P_PROBE, 'nopp': True}, {'op': 'act', 'vm': 0, 'a': 'start'}],
+                                {'op': 'act', 'vm': 0, 'a': 'abort'}, {'op': 'load', 'vm': 0, 'src': P_PROBE, 'nopp': True}, {'op': 'act', 'vm': 0, 'a': 'start'}],
                       'cpu_ms': 120000, 'journal_steps': True})
         meta.append((scripts, plan))
     results = runner.run(cases, retry_timeouts=False)
@@ -256,7 +261,7 @@ def run_concurrent(chk, tier):
         # (whether a controller action may enter is judged by the occupancy of the guarded region alone: the harness' own
         #  'executor returned' flag lags the release of the guard, so return codes cannot be lined up with it)
         # afterwards the VM must take a fresh script
-        fin = r['res'][3]
+        fin = r['res'][4]
         if fin.get('r') in ('invalid', 'action_error') or 'probe-ran' not in core.diag_values(core.logs_of(fin)):
             chk.violation('unusable-after-concurrent|' + str(fin.get('r')), 'after the two-thread episode a fresh script was started: start returned %s, state %s: %s' % (fin.get('r'), fin.get('st', {}).get('state'), desc), replay)
     chk.counters['distinct_controller_outcomes'] = len(interleavings)
